@@ -469,11 +469,22 @@ Proof.
   - rewrite Hd. lia.
 Qed.
 
-Lemma eff_pos_lt o pos np : (1 <= np)%nat -> (S (eff_pos o pos np) <= np)%nat.
+Lemma procs_upto_bounds o pos np :
+  (1 <= np)%nat -> exists k, procs_upto o pos np = S k /\ (S k <= np)%nat.
 Proof.
-  intros H. unfold eff_pos.
+  intros H. unfold procs_upto.
   assert (Nat.modulo pos np < np)%nat by (apply Nat.mod_upper_bound; lia).
-  destruct o; lia.
+  destruct o; try (eexists; split; [reflexivity|lia]).
+  destruct np; [lia|]. eexists; split; [reflexivity|lia].
+Qed.
+
+Lemma coros_upto_bounds o pos nc np :
+  (1 <= nc)%nat ->
+  (coros_upto o pos nc <= nc)%nat /\ (coros_upto o pos nc = O \/ procs_upto o pos np = np).
+Proof.
+  intros H. unfold coros_upto, procs_upto.
+  assert (Nat.modulo pos nc < nc)%nat by (apply Nat.mod_upper_bound; lia).
+  destruct o; split; auto; lia.
 Qed.
 
 (* the end of switch(): both worlds muted, on_switch_in queued on the target,
